@@ -478,6 +478,9 @@ func main() {
 	if len(races) > 10 {
 		races = races[:10]
 	}
+	if races == nil {
+		races = []vk.RaceReport{}
+	}
 	r.Extra("race_reports", races)
 	r.Finish()
 }
